@@ -616,7 +616,8 @@ def _is_word(s):
 
 
 WRITE_PAIRS = [("tab", "tab"), ("bed3", "bed3"), ("bed4", "bed4"), ("interval", "interval"), ("text", "text"),
-               ("bed3", "bed"), ("bed4", "bed")]
+               ("bed3", "bed"), ("bed4", "bed"), ("bed3", "bed4")]
+PRE_FORMATS = ["tab", "bed", "bed3", "bed4", "interval", "text"]
 
 
 def _rt_case(rng, wfmt=None, rfmt=None, tag=None, nmax=36, **kw):
@@ -624,10 +625,22 @@ def _rt_case(rng, wfmt=None, rfmt=None, tag=None, nmax=36, **kw):
         wfmt, rfmt = rng.choice(WRITE_PAIRS)
     cna = (wfmt == "tab" and rng.random() < 0.6)
     t0 = _table(rng, cna=cna if wfmt == "tab" else None, nmax=nmax, free_genes=(wfmt == "tab"), **kw)
-    if wfmt == "tab" and not cna and "log2" in t0["names"] and rng.random() < 0.5:
-        pass
-    return {"op": "fmt_roundtrip", "tag": tag or f"rt-{wfmt}-{rfmt}{'-cna' if cna else ''}",
-            "in": {"wfmt": wfmt, "rfmt": rfmt, "cna": cna, "t0": t0}}
+    i = {"wfmt": wfmt, "rfmt": rfmt, "cna": cna, "t0": t0}
+    if rng.random() < 0.4:
+        i["sub"] = rng.randint(1, 10 ** 6)  # the written table is a filtered subset (index labels != positions)
+    if rng.random() < 0.3:
+        # the same table OBJECT is first written in other formats (and in this one): no writer may change it
+        i["pre"] = [rng.choice(PRE_FORMATS + [wfmt]) for _ in range(rng.randint(1, 3))]
+    k = rng.random()
+    if k < 0.15:
+        i["via"] = "handle-write"
+    elif k < 0.3:
+        i["via"] = "handle-read"
+    elif k < 0.36:
+        i["via"] = "newdir"  # the output directory does not exist yet
+    if wfmt == "tab":
+        i["ext"] = rng.choice(["cnr", "cnn", "cns", "tsv"])
+    return {"op": "fmt_roundtrip", "tag": tag or f"rt-{wfmt}-{rfmt}{'-cna' if cna else ''}", "in": i}
 
 
 def _seg_case(rng, tag=None, cli=False, nsamp=None):
@@ -635,7 +648,12 @@ def _seg_case(rng, tag=None, cli=False, nsamp=None):
     sids = rng.sample(["S1", "tumor_2", "P-3", "normal", "x9", "T101", "n_b"], nsamp)
     probes = rng.random() < 0.6
     samples = [{"sid": sid, "t0": _table(rng, cna=True, nmax=14, want_probes=probes)} for sid in sids]
-    return {"op": "seg_roundtrip", "tag": tag or f"seg-{nsamp}", "in": {"samples": samples, "cli": cli}}
+    if tag is None and rng.random() < 0.12:
+        cli = True  # `cnvkit.py export seg ... -o` then `cnvkit.py import-seg ... -d` through the argument parser
+    i = {"samples": samples, "cli": cli}
+    if rng.random() < 0.3:
+        i["sub"] = rng.randint(1, 10 ** 6)
+    return {"op": "seg_roundtrip", "tag": tag or f"seg-{nsamp}{'-cli' if cli else ''}", "in": i}
 
 
 def corpus():
@@ -905,13 +923,21 @@ def run_impl(case):
             out["direct"] = _canon(direct.data, i.get("keep"))
             return out
         if op == "fmt_roundtrip":
-            cna, w, r = i["cna"], i["wfmt"], i["rfmt"]
-            f1, f2, f3 = (os.path.join(d, f"f{k}.{'cnr' if w == 'tab' else w}") for k in (1, 2, 3))
-            tabio.write(_array(i["t0"], cna), f1, w)
-            b = _reader(f1, r, cna)
-            tabio.write(b, f2, w)
-            c = _reader(f2, r, cna)
-            tabio.write(c, f3, w)
+            cna, w, r, via = i["cna"], i["wfmt"], i["rfmt"], i.get("via")
+            sub = os.path.join(d, "out", "dir") if via == "newdir" else d
+            if via == "newdir":
+                os.mkdir(os.path.join(d, "out"))  # safe_write creates the last level only
+            f1, f2, f3 = (os.path.join(sub, f"f{k}.{i.get('ext') or ('cnr' if w == 'tab' else w)}") for k in (1, 2, 3))
+            wvia = "handle" if via == "handle-write" else None
+            rvia = "handle" if via == "handle-read" else None
+            a = _array(i["t0"], cna, sub=i.get("sub"))
+            for k, pf in enumerate(i.get("pre") or []):
+                tabio.write(a, os.path.join(d, f"pre{k}.{pf}"), pf)
+            _writer(a, f1, w, wvia)
+            b = _reader(f1, r, cna, via=rvia)
+            _writer(b, f2, w, wvia)
+            c = _reader(f2, r, cna, via=rvia)
+            _writer(c, f3, w, wvia)
             return {"file1": _read_lines(f1), "t1": _canon(b.data), "file2": _read_lines(f2), "file3": _read_lines(f3)}
         if op == "seg_roundtrip":
             import argparse
@@ -921,7 +947,7 @@ def run_impl(case):
             fnames, cns1 = [], []
             for s in i["samples"]:
                 p = os.path.join(d, s["sid"] + ".cns")
-                tabio.write(_array(s["t0"], True, s["sid"]), p)
+                tabio.write(_array(s["t0"], True, s["sid"], sub=i.get("sub")), p)
                 fnames.append(p)
                 cns1.append(_read_lines(p))
             seg1 = os.path.join(d, "all.seg")
